@@ -100,12 +100,14 @@ package items
 //@   may_panic
 //@
 //@ # an item set lists each of its items once: the map holds exactly the keys of the listed items
-//@ spec setWF(s *ItemSet) bool = s != nil && s.imap != nil && s < alloc() && s.imap < alloc() && arr(s.Items) < alloc() && all(j, 0, len(s.Items), itemWF(s.Items[j]) && has(s.imap, s.Items[j].key))
+//@ spec setShape(s *ItemSet) bool = s != nil && s.imap != nil && all(j, 0, len(s.Items), itemWF(s.Items[j]) && has(s.imap, s.Items[j].key))
 //@   | && forallS(k, imp(has(s.imap, k), some(j, 0, len(s.Items), s.Items[j].key == k)))
+//@   | && all(j, 0, len(s.Items), all(k, 0, j, s.Items[k].key != s.Items[j].key))
+//@ spec setWF(s *ItemSet) bool = setShape(s) && s < alloc() && s.imap < alloc() && arr(s.Items) < alloc()
 //@
 //@ func NewItemSet
 //@   prop C02 C04
-//@   ensures [fresh] result != nil && result >= old(alloc()) && result.imap >= old(alloc()) && arr(result.Items) >= old(alloc()) && setWF(result) && len(result.Items) == 0
+//@   ensures [fresh] result != nil && result >= old(alloc()) && result.imap >= old(alloc()) && arr(result.Items) >= old(alloc()) && setWF(result) && len(result.Items) == 0 && result.Transitions != nil && result.Transitions >= old(alloc()) && result.Transitions < alloc()
 //@   ensures [fields] result.Symbols == symbols && result.FS == fs && result.Prods == prods
 //@   assigns nothing
 //@
@@ -185,26 +187,30 @@ package items
 //@ spec prodsWF(prods ast.SyntaxProdList) bool = all(p, 0, len(prods), prods[p] != nil && prods[p].Body != nil && len(prods[p].Body.Symbols) > 0)
 //@ spec closureEnv(s *ItemSet) bool = s.Symbols != nil && s.FS != nil && prodsWF(s.Prods) && forallS(x, imp(has(s.FS.firstSets, x), 0 <= s.FS.firstSets[x] && s.FS.firstSets[x] < alloc()))
 //@ # the working set of Closure: a fresh object with the environment of the receiver
-//@ spec workSet(c *ItemSet, this *ItemSet, a0 int) bool = setWF(c) && c >= a0 && c.imap >= a0 && arr(c.Items) >= a0 && c.Symbols == this.Symbols && c.Prods == this.Prods && c.FS == this.FS
+//@ spec workSet(c *ItemSet, this *ItemSet, a0 int) bool = setWF(c) && c >= a0 && c.imap >= a0 && arr(c.Items) >= a0 && c.Symbols == this.Symbols && c.Prods == this.Prods && c.FS == this.FS && c.Transitions != nil && c.Transitions >= a0 && c.Transitions < alloc()
 //@
 //@ func (*ItemSet).Closure
 //@   prop C02 C04
 //@   requires [wf] setWF(this) && closureEnv(this)
-//@   ensures [wf] setWF(c) && c.Symbols == this.Symbols && c.Prods == this.Prods && c.FS == this.FS
+//@   ensures [wf] setWF(c) && c.Symbols == this.Symbols && c.Prods == this.Prods && c.FS == this.FS && c >= old(alloc())
+//@   ensures [transitions] c.Transitions != nil && c.Transitions >= old(alloc()) && c.Transitions < alloc()
+//@   ensures [empty] imp(len(this.Items) == 0, len(c.Items) == 0)
 //@   ensures [superset] all(j, 0, len(this.Items), has(c.imap, this.Items[j].key))
 //@   ensures [closed] all(j, 0, len(c.Items), closedItem(c, c.Items[j]))
+//@   # the same two facts in the folded form the automaton construction carries around
+//@   ensures [shape] stateShape(c) && listsEachKeyOnce(c)
 //@   assigns nothing
 //@   may_panic
-//@   effort 40
+//@   effort 20
 //@   loop 1
 //@     invariant [work] workSet(c, this, old(alloc()))
-//@     invariant [superset] all(j, 0, len(this.Items), has(c.imap, this.Items[j].key))
+//@     invariant [grow] forallS(k, imp(entry(1, has(c.imap, k)), has(c.imap, k)))
 //@     invariant [included] -1 <= included && included < len(c.Items)
 //@     invariant [closed-upto] all(j, 0, included + 1, closedItem(c, c.Items[j]))
 //@     invariant [done] again || all(j, 0, len(c.Items), closedItem(c, c.Items[j]))
 //@   loop 2
 //@     invariant [work] workSet(c, this, old(alloc()))
-//@     invariant [superset] all(j, 0, len(this.Items), has(c.imap, this.Items[j].key))
+//@     invariant [grow] forallS(k, imp(entry(1, has(c.imap, k)), has(c.imap, k)))
 //@     invariant [snapshot] range_n2 <= len(c.Items) && all(j, 0, range_n2, c.Items[j] == range_x2[j]) && arr(range_x2) < alloc() && imp(arr(range_x2) == arr(c.Items), off(range_x2) == off(c.Items))
 //@     invariant [nochange] again || len(c.Items) == range_n2
 //@     invariant [included] -1 <= included && included < len(c.Items)
@@ -212,7 +218,7 @@ package items
 //@     invariant [skipped] all(j, included + 1, range_i2, trivialItem(c, c.Items[j]))
 //@   loop 3
 //@     invariant [work] workSet(c, this, old(alloc()))
-//@     invariant [superset] all(j, 0, len(this.Items), has(c.imap, this.Items[j].key))
+//@     invariant [grow] forallS(k, imp(entry(1, has(c.imap, k)), has(c.imap, k)))
 //@     invariant [snapshot] range_n2 <= len(c.Items) && all(j, 0, range_n2, c.Items[j] == range_x2[j]) && arr(range_x2) < alloc() && imp(arr(range_x2) == arr(c.Items), off(range_x2) == off(c.Items))
 //@     invariant [nochange] again || len(c.Items) == range_n2
 //@     invariant [included] -1 <= included && included < len(c.Items)
@@ -222,7 +228,7 @@ package items
 //@     invariant [cur] range_i2 < len(c.Items) && c.Items[range_i2] == i && itemWF(i)
 //@   loop 4
 //@     invariant [work] workSet(c, this, old(alloc()))
-//@     invariant [superset] all(j, 0, len(this.Items), has(c.imap, this.Items[j].key))
+//@     invariant [grow] forallS(k, imp(entry(1, has(c.imap, k)), has(c.imap, k)))
 //@     invariant [snapshot] range_n2 <= len(c.Items) && all(j, 0, range_n2, c.Items[j] == range_x2[j]) && arr(range_x2) < alloc() && imp(arr(range_x2) == arr(c.Items), off(range_x2) == off(c.Items))
 //@     invariant [nochange] again || len(c.Items) == range_n2
 //@     invariant [included] -1 <= included && included < len(c.Items)
@@ -245,12 +251,123 @@ package items
 //@ # C02/C04, goto rule: the successor state on X holds every item of the state with the dot moved over X, and is closed
 //@ func (*ItemSet).Goto
 //@   prop C02 C04
-//@   requires [wf] setWF(I) && closureEnv(I)
+//@   requires [wf] listsEachKeyOnce(I) && I < alloc() && I.imap < alloc() && arr(I.Items) < alloc() && closureEnv(I)
 //@   ensures [wf] setWF(result)
 //@   ensures [kernel] all(j, 0, len(I.Items), imp(I.Items[j].Pos < I.Items[j].Len && X == I.Items[j].ExpectedSymbol, has(result.imap, ItemKey(I.Items[j].ProdIdx, I.Items[j].Pos + 1, I.Items[j].FollowingSymbol))))
 //@   ensures [closed] all(j, 0, len(result.Items), closedItem(result, result.Items[j]))
+//@   ensures [empty] imp(!some(j, 0, len(I.Items), I.Items[j].Pos < I.Items[j].Len && X == I.Items[j].ExpectedSymbol), len(result.Items) == 0)
+//@   ensures [shape] stateShape(result) && listsEachKeyOnce(result)
+//@   ensures [fresh] result >= old(alloc()) && result.Symbols == I.Symbols && result.Prods == I.Prods && result.FS == I.FS && result.Transitions != nil && result.Transitions >= old(alloc()) && result.Transitions < alloc()
 //@   assigns nothing
 //@   may_panic
 //@   loop 1
 //@     invariant [work] workSet(J, I, old(alloc())) && closureEnv(J)
+//@     invariant [empty] imp(!some(j, 0, range_i1, I.Items[j].Pos < I.Items[j].Len && X == I.Items[j].ExpectedSymbol), len(J.Items) == 0)
 //@     invariant [kernel] all(j, 0, range_i1, imp(I.Items[j].Pos < I.Items[j].Len && X == I.Items[j].ExpectedSymbol, has(J.imap, ItemKey(I.Items[j].ProdIdx, I.Items[j].Pos + 1, I.Items[j].FollowingSymbol))))
+//@
+//@ # ---- pieces of the automaton construction (GetItemSets) ----
+//@ func (*ItemSet).AddTransition
+//@   prop C02 C04
+//@   requires [this] this != nil && this.Transitions != nil
+//@   panics [exists] has(this.Transitions, symbol)
+//@   ensures [added] has(this.Transitions, symbol) && this.Transitions[symbol] == nextSet
+//@   ensures [kept] forallS(s, imp(s != symbol, has(this.Transitions, s) == old(has(this.Transitions, s)) && this.Transitions[s] == old(this.Transitions[s])))
+//@   assigns mapof(this.Transitions)
+//@
+//@ func (*ItemSet).NextSetIndex
+//@   prop C02 C04
+//@   requires [this] this != nil
+//@   ensures [value] result == ite(has(this.Transitions, symbol), this.Transitions[symbol], -1)
+//@   assigns nothing
+//@
+//@ # Equal compares the number of items and asks whether every key of the receiver is a key of the argument
+//@ func (*ItemSet).Equal
+//@   prop C02 C04
+//@   requires [this] this != nil
+//@   ensures [value] result == (that != nil && len(this.Items) == len(that.Items) && forallS(k, imp(has(this.imap, k), has(that.imap, k))))
+//@   assigns nothing
+//@   loop 1
+//@     invariant [seen] forallS(k, imp(visited(1, k), has(that.imap, k)))
+//@
+//@ # Finite sets (trusted, instantiated explicitly and only for well-formed sets - GetIndex requires setWF of every set
+//@ # it compares): a well-formed item set lists each key exactly once, so if two of them have the same number of items
+//@ # and every key of the first is a key of the second, then every key of the second is a key of the first (pigeonhole)
+//@ axiomschema PigeonAt(S *ItemSets, i int, b *ItemSet) bool = imp(0 <= i && i < len(S.sets) && b != nil && len(S.sets[i].Items) == len(b.Items) && forallS(k, imp(has(S.sets[i].imap, k), has(b.imap, k))), forallS(k, imp(has(b.imap, k), has(S.sets[i].imap, k))))
+//@
+//@ func (*ItemSets).GetIndex
+//@   prop C02 C04
+//@   requires [this] this != nil && all(i, 0, len(this.sets), this.sets[i] != nil && listsEachKeyOnce(this.sets[i])) && (I == nil || listsEachKeyOnce(I))
+//@   ensures [range] -1 <= result && result < len(this.sets)
+//@   ensures [found] imp(result >= 0, I != nil && len(I.Items) > 0 && forallS(k, has(this.sets[result].imap, k) == has(I.imap, k)))
+//@   ensures [none] imp(result == -1 && I != nil && len(I.Items) > 0, all(i, 0, len(this.sets), !(len(this.sets[i].Items) == len(I.Items) && forallS(k, imp(has(this.sets[i].imap, k), has(I.imap, k))))))
+//@   assigns nothing
+//@   loop 1
+//@     invariant [none-so-far] all(i, 0, range_i1, !(len(this.sets[i].Items) == len(I.Items) && forallS(k, imp(has(this.sets[i].imap, k), has(I.imap, k)))))
+//@     use PigeonAt(this, range_i1, I)
+//@
+//@ func InitialItemSet
+//@   prop C02 C04
+//@   requires [grammar] g != nil && g.SyntaxPart != nil && len(g.SyntaxPart.ProdList) > 0 && prodsWF(g.SyntaxPart.ProdList)
+//@   ensures [wf] setWF(result) && result >= old(alloc()) && result.Symbols == symbols && result.Prods == g.SyntaxPart.ProdList && result.FS == fs
+//@   ensures [start] has(result.imap, ItemKey(0, 0, "␚"))
+//@   assigns nothing
+//@   may_panic
+//@
+//@ package symbols
+//@ func symbols.(*Symbols).List
+//@   nobody
+//@   # proved in internal/parser/symbols: the list of all symbols in numbering order
+//@   ensures [value] result == this.typeMap
+//@   assigns nothing
+//@ package items
+//@
+//@ # ---- the LR(1) automaton (C02, C04): every state is closed, and for every state I and symbol X over which some item
+//@ # ---- of I can move its dot, I has a transition on X to a state that holds every such item with the dot moved ----
+//@ spec moves(it *Item, X string) bool = it.Pos < it.Len && X == it.ExpectedSymbol
+//@ spec movedKey(it *Item) string = ItemKey(it.ProdIdx, it.Pos + 1, it.FollowingSymbol)
+//@ # (the three predicates below are kept folded inside the loops: nothing they read changes while the automaton grows)
+//@ opaque spec stateShape(s *ItemSet) bool = setShape(s) && all(j, 0, len(s.Items), closedItem(s, s.Items[j]))
+//@ opaque spec listsEachKeyOnce(s *ItemSet) bool = setShape(s)
+//@ opaque spec movesAny(I *ItemSet, X string) bool = some(j, 0, len(I.Items), moves(I.Items[j], X))
+//@ opaque spec targetHolds(I *ItemSet, X string, T *ItemSet) bool = all(j, 0, len(I.Items), imp(moves(I.Items[j], X), has(T.imap, movedKey(I.Items[j]))))
+//@ spec stateOK(s *ItemSet, a0 int, fs *first.FirstSets, sym *symbols.Symbols, prods ast.SyntaxProdList) bool = stateShape(s) && listsEachKeyOnce(s) && s >= a0 && s < alloc() && s.imap < alloc() && arr(s.Items) < alloc()
+//@   | && s.Transitions != nil && s.Transitions >= a0 && s.Transitions < alloc() && s.FS == fs && s.Symbols == sym && s.Prods == prods
+//@ spec gotoOK(S *ItemSets, I *ItemSet, X string) bool = imp(movesAny(I, X), has(I.Transitions, X) && 0 <= I.Transitions[X] && I.Transitions[X] < len(S.sets) && targetHolds(I, X, S.sets[I.Transitions[X]]))
+//@ spec statesOK(S *ItemSets, a0 int, fs *first.FirstSets, sym *symbols.Symbols, prods ast.SyntaxProdList) bool = S != nil && S >= a0 && arr(S.sets) >= a0 && arr(S.sets) < alloc() && len(S.sets) >= 1 && all(i, 0, len(S.sets), stateOK(S.sets[i], a0, fs, sym, prods))
+//@   | && all(i, 0, len(S.sets), all(k, 0, i, S.sets[i] != S.sets[k] && S.sets[i].Transitions != S.sets[k].Transitions))
+//@ spec fsAllocated(fs *first.FirstSets) bool = fs != nil && forallS(x, imp(has(fs.firstSets, x), 0 <= fs.firstSets[x] && fs.firstSets[x] < alloc()))
+//@
+//@ func GetItemSets
+//@   prop C02 C04
+//@   requires [grammar] g != nil && g.SyntaxPart != nil && len(g.SyntaxPart.ProdList) > 0 && prodsWF(g.SyntaxPart.ProdList)
+//@   requires [env] s != nil && fsAllocated(firstSets)
+//@   ensures [states] statesOK(result, old(alloc()), firstSets, s, g.SyntaxPart.ProdList)
+//@   ensures [start] has(result.sets[0].imap, ItemKey(0, 0, "␚"))
+//@   ensures [goto] all(i, 0, len(result.sets), all(x, 0, len(s.typeMap), gotoOK(result, result.sets[i], s.typeMap[x])))
+//@   assigns nothing
+//@   may_panic
+//@   loop 1
+//@     invariant [states] statesOK(S, old(alloc()), firstSets, s, g.SyntaxPart.ProdList) && symbols == s.typeMap && fsAllocated(firstSets)
+//@     invariant [start] has(S.sets[0].imap, ItemKey(0, 0, "␚"))
+//@     invariant [included] -1 <= included && included < len(S.sets)
+//@     invariant [done-upto] all(i, 0, included + 1, all(x, 0, len(symbols), gotoOK(S, S.sets[i], symbols[x])))
+//@     invariant [done] again || included == len(S.sets) - 1
+//@   loop 2
+//@     invariant [states] statesOK(S, old(alloc()), firstSets, s, g.SyntaxPart.ProdList) && symbols == s.typeMap && fsAllocated(firstSets)
+//@     invariant [start] has(S.sets[0].imap, ItemKey(0, 0, "␚"))
+//@     invariant [snapshot] range_n2 <= len(S.sets) && all(i, 0, range_n2, S.sets[i] == range_x2[i]) && arr(range_x2) < alloc() && imp(arr(range_x2) == arr(S.sets), off(range_x2) == off(S.sets))
+//@     invariant [nochange] again || len(S.sets) == range_n2
+//@     invariant [included] -1 <= included && included < len(S.sets) && range_i2 - 1 <= included
+//@     invariant [done-upto] all(i, 0, included + 1, all(x, 0, len(symbols), gotoOK(S, S.sets[i], symbols[x])))
+//@   loop 3
+//@     invariant [states] statesOK(S, old(alloc()), firstSets, s, g.SyntaxPart.ProdList) && symbols == s.typeMap && fsAllocated(firstSets)
+//@     invariant [start] has(S.sets[0].imap, ItemKey(0, 0, "␚"))
+//@     invariant [snapshot] range_n2 <= len(S.sets) && all(i, 0, range_n2, S.sets[i] == range_x2[i]) && arr(range_x2) < alloc() && imp(arr(range_x2) == arr(S.sets), off(range_x2) == off(S.sets))
+//@     invariant [nochange] again || len(S.sets) == range_n2
+//@     invariant [included] -1 <= included && included < range_i2 && range_i2 < len(S.sets)
+//@     invariant [cur] S.sets[range_i2] == I
+//@     invariant [done-upto] all(i, 0, included + 1, all(x, 0, len(symbols), gotoOK(S, S.sets[i], symbols[x])))
+//@     invariant [partial] all(x, 0, range_i3, gotoOK(S, I, symbols[x]))
+//@     step [gto-env] gto.Symbols == s && gto.FS == firstSets && gto.Prods == g.SyntaxPart.ProdList
+//@     step [moves] movesAny(I, X) == (len(gto.Items) > 0)
+//@     step [target] imp(len(gto.Items) > 0, has(I.Transitions, X) && 0 <= I.Transitions[X] && I.Transitions[X] < len(S.sets) && targetHolds(I, X, S.sets[I.Transitions[X]]))
